@@ -571,6 +571,18 @@ def _fixed_calls():
                 level = 'inst' if isinstance(on, dict) and \
                     on.get('k') == 'ipath' else 'class'
                 variants.setdefault(level, call)
+            if 'ObjectName' in variants[sorted(variants)[0]]['args']:
+                # both levels, whatever was drawn
+                base = variants[sorted(variants)[0]]
+                for level, on in (
+                        ('class', 'CIM_Foo'),
+                        ('inst', {'k': 'ipath', 'classname': 'CIM_Foo',
+                                  'keys': [('k', 'uint8', 1)],
+                                  'namespace': None, 'host': None})):
+                    if level not in variants:
+                        c2 = {'op': base['op'], 'args': dict(base['args'])}
+                        c2['args']['ObjectName'] = on
+                        variants[level] = c2
             got[opn] = [variants[k] for k in sorted(variants)]
     grab()
     _FIXED_CALLS.update(got)
